@@ -191,7 +191,8 @@ def diff_par(ctx, exe, lines, use_lean, label, nproc=6):
 
 # ----------------------------------------------------------------------------- secure messaging
 K0 = "00" * 32
-LE_FORMS = [0, 1, 255, 256, 257, 65535, 65536]
+# absent, short, 256 / 65536 specials, and extended values whose two octets DIFFER (a swapped or truncated encoding shows)
+LE_FORMS = [0, 1, 255, 256, 257, 258, 300, 511, 512, 4096, 0x1234, 0xFF00, 65535, 65536]
 
 
 def cdf_star_len(n, le):
@@ -203,6 +204,49 @@ def cdf_star_len(n, le):
         l = 1 if (n < 256 and le <= 256) else (2 if n else 3)
         r += 2 + l
     return r
+
+
+def sm_cmd_ref(cla, ins, p1, p2, n, le):
+    """regex of the protected command btokSMCmdWrap must write (independent Python encoding of the header, Lc*, the 0x87 /
+    0x97 / 0x8E objects and Le*; the ciphertext and the tag are wildcards)"""
+    f87 = (tlv([0x87], bytes(n + 1))[:-(n + 1)].hex() + "02" + "[0-9a-f]{%d}" % (2 * n)) if n else ""
+    n87 = len(tlv([0x87], bytes(n + 1))) if n else 0
+    if le == 0:
+        f97 = b""
+    elif n < 256 and le <= 256:
+        f97 = bytes([0x97, 1, le & 255])
+    elif n:
+        f97 = bytes([0x97, 2, (le >> 8) & 255, le & 255])
+    else:
+        f97 = bytes([0x97, 3, 0, (le >> 8) & 255, le & 255])
+    L = n87 + len(f97) + 10
+    if le == 0:
+        lc, lez = (bytes([L]) if L < 256 else bytes([0, L >> 8, L & 255])), b""
+    elif le <= 256 and L < 256:
+        lc, lez = bytes([L]), b"\0"
+    else:
+        lc, lez = bytes([0, L >> 8, L & 255]), b"\0\0"
+    return "0 " + bytes([cla | 4, ins, p1, p2]).hex() + lc.hex() + f87 + f97.hex() + "8e08[0-9a-f]{16}" + lez.hex()
+
+
+def sm_resp_ref(sw1, sw2, n):
+    f87 = (tlv([0x87], bytes(n + 1))[:-(n + 1)].hex() + "02" + "[0-9a-f]{%d}" % (2 * n)) if n else ""
+    return "0 " + f87 + "8e08[0-9a-f]{16}" + bytes([sw1, sw2]).hex()
+
+
+def apdu_ref(cla, ins, p1, p2, cdf, le):
+    """unprotected command APDU (ISO 7816-4 cases 1..4, short / extended)"""
+    n = len(cdf)
+    ext = n >= 256 or le > 256
+    out = bytes([cla, ins, p1, p2])
+    if n:
+        out += (bytes([0, n >> 8, n & 255]) if ext else bytes([n])) + cdf
+    if le:
+        if not ext:
+            out += bytes([le & 255])
+        else:
+            out += (b"" if n else b"\0") + bytes([(le >> 8) & 255, le & 255])
+    return out
 
 
 def cmd_expect(cla, ins, p1, p2, cdf, le):
@@ -226,9 +270,9 @@ def sm_stage1(ctx, bag, st):
     n_cla = 0
     for n in lens:
         boundary = n in (0, 1, 2, 254, 255, 256, 257) or 226 <= n <= 246 or n >= 65500
-        les = LE_FORMS if boundary else [LE_FORMS[(n + j * 3) % 7] for j in range(2)]
+        les = LE_FORMS if boundary else [LE_FORMS[(n + j * 5) % 14] for j in range(2)]
         if n >= 65500 and quick:
-            les = [0, 1, 65536] if n in (65516, 65517, 65520, 65521, 65535) else [0]
+            les = [0, 1, 65536, 0x1234] if n in (65516, 65517, 65520, 65521, 65535) else [0, 0xFF00][:1 + (n == 65500)]
         for le in les:
             key = keys[(n + le) % 3] if n < 1000 else K0
             cv = rng.choice(odd_ctrs) if n % 4 else (rng.getrandbits(128) | 1)
@@ -241,7 +285,8 @@ def sm_stage1(ctx, bag, st):
                 bag.add(line, str(BAD_APDU), "sm:cmdwrap:unrepresentable",
                         "btokSMCmdWrap accepted a command whose protected data field (%d octets) does not fit the two-octet Lc*" % cdf_star_len(n, le))
             else:
-                bag.add(line, r"0 [0-9a-f]+", "sm:cmdwrap:accept", "btokSMCmdWrap refused a valid unprotected command at an odd counter")
+                bag.add(line, sm_cmd_ref(cmd[0], cmd[1], cmd[2], cmd[3], n, le), "sm:cmdwrap:accept",
+                        "btokSMCmdWrap refused a valid unprotected command at an odd counter, or the protected octets (header, Lc*, 0x87 / 0x97 / 0x8E objects, Le*) differ from the reference encoding")
             st["cw"].append((len(bag.ops) - 1, key, cv, cmd))
             if n % 5 == 0 and n < 1000:
                 # wrong parity: the documented refusal
@@ -249,7 +294,7 @@ def sm_stage1(ctx, bag, st):
                         str(BAD_LOGIC), "sm:cmdwrap:parity", "btokSMCmdWrap at an even counter must return ERR_BAD_LOGIC")
     # every CLA value (the protected ones are refused)
     for cla in range(256):
-        want = str(BAD_APDU) if cla & 4 else r"0 %02x010203[0-9a-f]+" % (cla | 4)
+        want = str(BAD_APDU) if cla & 4 else sm_cmd_ref(cla, 1, 2, 3, 3, 7)
         bag.add("smcw %s %s %d 1 2 3 aabbcc 7" % (K0, ctr_hex(1), cla), want, "sm:cmdwrap:cla", "CLA handling of btokSMCmdWrap")
         if not cla & 4:
             st["cw"].append((len(bag.ops) - 1, K0, 1, (cla, 1, 2, 3, bytes.fromhex("aabbcc"), 7)))
@@ -262,7 +307,7 @@ def sm_stage1(ctx, bag, st):
             cdf = bytes([v]) if v % 3 else b""
             le = (0, 1, 256)[v % 3]
             bag.add("smcw %s %s %d %d %d %d %s %d" % (K0, ctr_hex(3), hdr[0], hdr[1], hdr[2], hdr[3], hx(cdf), le),
-                    r"0 %02x%02x%02x%02x[0-9a-f]+" % (hdr[0] | 4, hdr[1], hdr[2], hdr[3]), "sm:cmdwrap:hdr",
+                    sm_cmd_ref(hdr[0], hdr[1], hdr[2], hdr[3], len(cdf), le), "sm:cmdwrap:hdr",
                     "btokSMCmdWrap altered INS / P1 / P2 (or CLA bits other than 0x04)")
             st["cw"].append((len(bag.ops) - 1, K0, 3, (hdr[0], hdr[1], hdr[2], hdr[3], cdf, le)))
     for le in (65537, 1 << 32):
@@ -276,8 +321,8 @@ def sm_stage1(ctx, bag, st):
         key = keys[n % 3] if n < 1000 else K0
         cv = rng.choice([0, 2, 254, (1 << 128) - 2]) if n % 4 else (rng.getrandbits(128) & ~1)
         resp = (rng.choice([0x90, 0x61, 0x6A, rng.randrange(256)]), rng.randrange(256), rng.randbytes(n))
-        bag.add("smrw %s %s %d %d %s" % (key, ctr_hex(cv), resp[0], resp[1], hx(resp[2])), r"0 [0-9a-f]+", "sm:respwrap:accept",
-                "btokSMRespWrap refused a valid response at an even counter")
+        bag.add("smrw %s %s %d %d %s" % (key, ctr_hex(cv), resp[0], resp[1], hx(resp[2])), sm_resp_ref(resp[0], resp[1], n), "sm:respwrap:accept",
+                "btokSMRespWrap refused a valid response at an even counter, or the protected octets differ from the reference encoding")
         st["rw"].append((len(bag.ops) - 1, key, cv, resp))
         if n % 5 == 0:
             bag.add("smrw %s %s %d %d %s" % (key, ctr_hex(cv + 1), resp[0], resp[1], hx(resp[2])), str(BAD_LOGIC),
@@ -324,9 +369,12 @@ def sm_stage1(ctx, bag, st):
                             "a crafted protected response with a random tag was accepted")
     st["ncraft"] = ncraft
     # without a state: plain encoding
-    for n, le in [(0, 0), (0, 1), (0, 256), (0, 257), (0, 65536), (1, 0), (255, 256), (255, 257), (256, 0), (256, 1), (300, 65536)]:
-        cdf = rng.randbytes(n)
-        bag.add("smcw0 %d 1 2 3 %s %d" % (rng.randrange(256), hx(cdf), le))
+    for n in (0, 1, 255, 256, 257, 300, 0x1234):
+        for le in LE_FORMS:
+            cdf = rng.randbytes(n)
+            cla = rng.randrange(256)
+            bag.add("smcw0 %d 1 2 3 %s %d" % (cla, hx(cdf), le), "0 " + apdu_ref(cla, 1, 2, 3, cdf, le).hex(), "sm:cmdwrap:nostate",
+                    "unprotected command encoding differs from ISO 7816-4 (Lc / Le forms)")
     bag.add("smrw0 144 0 " + hx(rng.randbytes(20)))
     bag.add("smrw0 144 0 -")
 
@@ -397,7 +445,7 @@ def sm_stage2(ctx, bag, st, c_out):
         ca = cb = 0
         for rnd in range(rng.randint(2, 6)):
             cdf = rng.randbytes(rng.choice([0, 1, 5, 16, 31, 100, 250, 260]))
-            le = rng.choice(LE_FORMS[:5])
+            le = rng.choice([0, 1, 255, 256, 257, 300, 0x1234, 0xFF00])
             cla = rng.randrange(256) & 0xFB
             cw = "cw:%d:%d:%d:%d:%s:%d" % (cla, 164, 4, rnd, hx(cdf), le)
             rdf = rng.randbytes(rng.choice([0, 1, 8, 16, 40, 255, 256]))
